@@ -172,7 +172,8 @@ def _gen_ts(rng, big=False):
 
 
 def _bi_entry(rng, ok):
-    name = rng.choice([n for n in BI_NAMES if n != "uima.cas.TOP"])
+    with_feats = [n for n in BI_NAMES if BI[n][1]]
+    name = rng.choice(with_feats) if rng.random() < 0.6 else rng.choice([n for n in BI_NAMES if n != "uima.cas.TOP"])
     var = rng.choice(BI_OK if ok else BI_BAD)
     fs = BI[name][1]
     if var in ("featorder",) and len(fs) < 2:
